@@ -4,9 +4,14 @@ import glob, json, os
 rows = []
 for d in sorted(glob.glob("/verif/seeded/*/")):
     m = json.load(open(d + "meta.json"))
-    c = m["confirmed_by_me"]
-    conf = all(v for k, v in c.items() if k != "demo_output_tail")
-    caught = [k for k, v in m["checks_run_against_it"].items() if v["exit"] == 1]
+    if "confirmed_by_me" in m:
+        c = m["confirmed_by_me"]
+        conf = all(v for k, v in c.items() if k != "demo_output_tail")
+    else:
+        conf = bool(m.get("applied") and m.get("suite_passes_with_mutant"))
+        if not m.get("applied") or not m.get("suite_passes_with_mutant"):
+            continue
+    caught = [k for k, v in m.get("checks_run_against_it", {}).items() if v["exit"] == 1]
     missed = [k for k, v in m["checks_run_against_it"].items() if v["exit"] == 0]
     other = [f"{k} (exit {v['exit']})" for k, v in m["checks_run_against_it"].items() if v["exit"] not in (0, 1)]
     s = (m.get("summary") or "").replace("|", "/").replace("\n", " ")
